@@ -273,6 +273,8 @@ parseinit(struct scope *s, struct type *t)
 				expr = exprassign(expr, t);
 				goto add;
 			}
+			if (!p.cur)
+				error(&tok.loc, "initializer for array, struct or union must be enclosed in braces");
 			focus(&p);
 		}
 	add:
